@@ -302,6 +302,36 @@ PRELUDE = (
 )
 
 
+def gen_fr_throw_program(rng):
+    """A stand-alone program whose only jobs are FinalizationRegistry clean-up jobs, some of whose callbacks THROW
+    (message prefix FRCB): every registration must still be reported at most once, whatever the callback does, and
+    registrations of strongly held targets never.  No promise jobs are pending when the clean-up runs (a throwing job
+    makes boa's executor drop the rest of the queue, which is documented behaviour and not what is tested here)."""
+    n = rng.randrange(2, 7)
+    thrower = rng.randrange(0, n)
+    mode = rng.choice(["throw-always", "throw-once", "throw-first-call", "unregister-then-throw"])
+    lines = [PRELUDE,
+             "var keep = []; var calls = 0; var thrown = {};",
+             "var fr = new FinalizationRegistry(function (h) { calls++; print(\"F:\" + h);"]
+    if mode == "throw-always":
+        lines.append("  if (h === \"D_h%d\") throw new Error(\"FRCB always \" + h);" % thrower)
+    elif mode == "throw-once":
+        lines.append("  if (h === \"D_h%d\" && !thrown[h]) { thrown[h] = 1; throw new Error(\"FRCB once \" + h); }" % thrower)
+    elif mode == "throw-first-call":
+        lines.append("  if (calls === 1) throw new Error(\"FRCB first \" + h);")
+    else:
+        lines.append("  if (h === \"D_h%d\") { fr.unregister(tok); throw new Error(\"FRCB unreg \" + h); }" % thrower)
+    lines.append("});")
+    lines.append("var tok = {};")
+    lines.append("(function () { for (var i = 0; i < %d; i++) { var s = {s: i}, d = {d: i}; keep.push(s); fr.register(s, \"S_h\" + i); fr.register(d, \"D_h\" + i, i %% 2 ? tok : undefined); } })();" % n)
+    # two waves of garbage so that a second clean-up pass has something to report
+    lines.append("(function () { var late = {late: 1}; fr.register(late, \"D_late\"); })();")
+    lines.append("gc(); var junk = []; for (var j = 0; j < %d; j++) junk.push({j: j}); junk = null; gc();" % rng.randrange(5, 80))
+    lines.append("print(\"frthrow\", keep.length);")
+    lines.append("print(\"end\");")
+    return "\n".join(lines) + "\n", {"fr_throw_" + mode: 1}
+
+
 def gen_program(rng, size=6, depth=3):
     """Returns (javascript text, feature histogram)."""
     g = G(rng, size)
